@@ -169,6 +169,10 @@ def run(ctx):
         return
     # every type constant judged against the xDS protocol on the real predicates (oracle only; found input for a table break)
     ctx.diff_stream("types", 10 ** 9, oracle=oracle)
+    # ... and EVERY row of the table through the real processRequest / processDeltaRequest / pushConnection[Delta] with
+    # recording generators keyed by the type URL (first request, ACK, NACK, stale, added names, ...): the model handles
+    # a URL outside the ten modelled types as NDS - GenTie.other_rows_like_nds put to the test on the handlers
+    ctx.diff_stream("tproc", ctx.n(300, 4000), oracle=oracle)
     n = ctx.n(1500, 40000)
     ctx.diff_stream("sotw", n, oracle=oracle)
     ctx.diff_stream("delta", n, oracle=oracle)
@@ -198,7 +202,7 @@ def run(ctx):
         "cases_this_run": {k: ctx.streams.get(k, {}).get("cases", 0) for k in ("enum", "denum")},
     }
     # the oracle also runs on every generated case (second line, independent of the model)
-    for stream in ("sotw", "delta", "warm", "loop", "proc", "dproc", "recv", "dloop", "enum", "denum", "types"):
+    for stream in ("sotw", "delta", "warm", "loop", "proc", "dproc", "recv", "dloop", "enum", "denum", "types", "tproc"):
         g = os.path.join(ctx.work, "%s.gen.ops" % stream)
         if os.path.exists(g):
             out = g + ".verdict"
